@@ -292,9 +292,13 @@ def _explore(ctx: Ctx, pid: str) -> None:
         # hypothesis of C10.sched_refines_ledger (flat hardware configuration + protocol, evaluated by the Lean driver with
         # the decidable Refine.OkS at every step) and whether some step raised
         hyp = outs[off + len(evs)].split(" ")
+        stale = any(e.get("stale_connector") for e in world.log if e["ev"] == "notify")
         if hyp[0] == "true":
             ctx.count("refinement-hypothesis:holds")
-            if hyp[1] == "false":
+            if stale:
+                # the real run left the modelled domain (notification racing with a re-allocation: the model's notify is atomic)
+                ctx.count("refinement-hypothesis:holds-but-real-run-has-stale-connector-race")
+            elif hyp[1] == "false":
                 ctx.count("refinement-hypothesis:holds-and-no-step-raised")
                 # the theorem's conclusion, observed on the REAL state: reserved cores/memory = what the occupying jobs need
                 use = world.true_usage()
